@@ -25,6 +25,7 @@ import (
 	"math/big"
 	"os"
 	"path/filepath"
+	"runtime/pprof"
 	"sort"
 	"strings"
 	"sync"
@@ -309,6 +310,8 @@ type runner struct {
 
 	crashed    bool // an abrupt stop happened: resurrected entries may sit in pool and limbo at once
 	strictHeap bool
+	snaps      int
+	lastOp     bool
 	deepBefore bool
 }
 
@@ -419,7 +422,39 @@ type storeEnt struct {
 	block uint64
 }
 
-func (r *runner) storeEntries() (q, l []storeEnt) {
+// storeEntries lists both stores.  full: billy's Iterate (allocates a buffer per shelf, slow);
+// otherwise the ids named by the indices are read back one by one and the filled-slot
+// counts bound what else could be stored (same listing whenever index and store agree).
+func (r *runner) storeEntries(d *blobpool.VerifDump, full bool) (q, l []storeEnt) {
+	if !full {
+		for _, txs := range d.Index {
+			for _, m := range txs {
+				t := int64(-1)
+				if h, ok := r.pool.VerifStoreGet(m.ID); ok {
+					t = r.tid(h)
+				}
+				q = append(q, storeEnt{m.ID, m.StorageSize, t, 0})
+			}
+		}
+		for _, id := range d.LimboIndex {
+			t := int64(-1)
+			h, blk, ok := r.pool.VerifLimboGet(id)
+			if ok {
+				t = r.tid(h)
+			}
+			l = append(l, storeEnt{id, 0, t, blk})
+		}
+		sort.Slice(q, func(i, j int) bool { return q[i].id < q[j].id })
+		sort.Slice(l, func(i, j int) bool { return l[i].id < l[j].id })
+		nq, nl := r.pool.VerifStoreCounts()
+		if int(nq) != len(q) {
+			r.fail("index_store_agree: store holds %d entries, index %d", nq, len(q))
+		}
+		if int(nl) != len(l) {
+			r.fail("limbo store holds %d entries, limbo index %d", nl, len(l))
+		}
+		return
+	}
 	r.pool.VerifStoreIterate(func(id uint64, size uint32, h common.Hash, ok bool) {
 		t := int64(-1)
 		if ok {
@@ -727,7 +762,8 @@ func (r *runner) check(d *blobpool.VerifDump, q, l []storeEnt, afterInit bool) {
 
 func (r *runner) snapshot(afterInit bool) (Sx, *blobpool.VerifDump) {
 	d := r.pool.VerifDump()
-	q, l := r.storeEntries()
+	r.snaps++
+	q, l := r.storeEntries(d, afterInit || r.lastOp || r.snaps%6 == 0)
 	r.check(d, q, l, afterInit)
 	return r.dumpSx(d, q, l), d
 }
@@ -912,7 +948,8 @@ func run(c Sx) (res Result) {
 	obs = append(obs, L(I(0), first))
 	okAdds, resets := 0, 0
 
-	for _, o := range ops {
+	for oi, o := range ops {
+		r.lastOp = oi == len(ops)-1
 		f := ulist(o)
 		if len(f) < 2 {
 			panic("hxlib: bad op")
